@@ -1,5 +1,6 @@
 (* C06 — an AsyncContext is active exactly while its task, or work it awaits, runs.
-   Statements only; proofs in proofs/MachineDFS.v (flags) and proofs/MachineC06T.v (resume/pause trace).
+   Statements only; proofs in proofs/MachineDFS.v (flags), proofs/MachineC06T.v (resume/pause trace) and
+   proofs/MachineDFSS.v (flags and trace for programs with SYNCHRONOUS CALLS, statements (8)-(16) at the end).
    The model keeps, per task, the flag _contexts_active; _resume_contexts/_pause_contexts flip it and call
    resume()/pause() on every open context of the task, so the flag IS the state of the task's contexts between
    enter and exit.  An AsyncContext with id cid in task t logs EvResume t cid at every resume() (on entry:
@@ -41,11 +42,55 @@
    ("fix: AsyncContext.__exit__ does not pause a context twice"); Machine.exit_ctx follows the repaired code and
    C06_former_witnesses_alternate shows by vm_compute that the former witnesses now alternate.  The general statement
    beyond tree programs is now neither proved nor refuted.
-   NOT PROVED: programs outside tree/wn - Let/Sync (synchronous re-entry through .value(), "including synchronous
-   calls it makes"), ReadVar/Probe branching, shared futures (DAGs), with-blocks left open when a task ends, contexts
-   whose resume()/pause() raise, NonAsyncContext (three runs computed in C06_former_witnesses_alternate; nothing proved), non-pointwise services, runs in which
-   the task-stack guard fired; the converse of (7) (every awaiting task's contexts ARE resumed while t runs) is only
-   proved for t itself (6) - for ancestors it follows from MachineC07's layer structure but is not stated here.
+   PROVED FOR TREE PROGRAMS WITH SYNCHRONOUS CALLS (MachineC01S.stree: tree programs in which a task body may also call
+   another @asynq function synchronously, fn(args) = fn.asynq(args).value() = Let (FTask q) (fun h => Sync h k), nested
+   to any depth; the call runs a NESTED scheduler loop below the caller's frames on the same task stack), same
+   hypotheses (pointwise P, no_unwind), on the flags (_contexts_active = tk_cact, _dependencies_scheduled = tk_ds);
+   fvals fr = the callers that are inside value() (owners of the FValue frames of fr), MachineDFSS.stk ts fr = "the
+   task stack ts decomposes along the levels of fr: empty at FTop, and  t :: rest ++ below  with length below = i at a
+   level  FValue t k :: FCont t old :: FExec i :: FWait r :: fr'":
+   (8)  C06_contexts_at_every_flush_stree (F1): at the end of every _execute pass (= every scheduler flush), of the
+        outermost loop or of a loop nested in synchronous calls: the stack is exactly what the enclosing levels own (stk:
+        the segment of the finished pass is empty, the height is the one recorded by the callers' _execute frames); every
+        caller inside value() is an uncompleted task with ACTIVE contexts (it is not paused around the flush: "including
+        synchronous calls it makes"); every other uncompleted task with tk_cact or tk_ds set is on that stack - at or
+        below the innermost caller -, has tk_cact set and has tk_ds set (it is suspended at a yield with its
+        dependencies scheduled); hence every uncompleted task that is not on the stack is paused.
+        C06_contexts_at_nested_flush_stree spells this out for frames  FWait r :: FValue t k :: ... .
+   (9)  C06_contexts_paused_at_outer_flush_stree (F3): at a flush issued by the outermost loop (no caller inside value())
+        the stack is empty and no uncompleted task has tk_cact or tk_ds set - statement (1) for every stree program;
+        C06_contexts_paused_at_every_flush_tree_rederived: (1) itself follows (tree programs never enter value()).
+   (10) C06_contexts_active_while_own_code_runs_stree (F2): while the body of t runs, t is on top of the stack, t and
+        EVERY caller suspended in a synchronous call that led to t's code have active contexts, and every other
+        uncompleted task with active contexts is on the stack and has tk_ds set.
+   (11) C06_callers_stay_resumed_inside_value: at EVERY non-final configuration of the run every caller inside value()
+        is an uncompleted task with active contexts.
+   (12) C06_contexts_untouched_inside_value (trace): over any stretch of the run during which t stays inside value() the
+        trace gains no EvResume/EvPause event of any context of t (MachineDFSS.cevt t = those events, newest first).
+   (13) C06_all_paused_at_end_stree: when the outermost call has returned the stack is empty and no uncompleted task has
+        tk_cact or tk_ds set.
+   REFUTED for stree (14) C06_paused_at_every_flush_stree_is_false: "at every flush no uncompleted task other than the
+        callers inside value() has active contexts" (MachineDFSS.contexts_paused_at_every_flush_stree_statement, i.e.
+        (1) with the exception the property text itself demands) is FALSE.  Witness c06s_demo, step 31: root [0] holds
+        ctx 0 and awaits caller [2]; [2] holds ctx 1 and calls callee [4] synchronously; [4] blocks on a batch item;
+        the loop nested below [2] flushes the batch while [0] - SUSPENDED AT ITS YIELD - still has its contexts resumed
+        (tk_cact = tk_ds = true).  This is what scheduler.py does: value() -> wait_for -> _execute -> _continue_with_batch
+        run inside [2]'s _continue_with_task, nobody pauses the tasks that are grey on the stack below.  By the clause
+        "resumed whenever tasks that only it is awaiting run ... including synchronous calls" this is the intended
+        behaviour; the clause "paused whenever a batch is flushed while the task is suspended" read literally is
+        violated (candidate finding: the two clauses of the property conflict for the awaiting ancestors of a
+        synchronous caller; the strongest true statement is (8)).
+   (15)/(16) non-vacuity: C06_stree_hypotheses_are_met (the run of c06s_demo with its flags at the nested flush and its
+        events: the sibling's context is paused before the flush, the caller's and the root's are not),
+        C06_stree_caller_is_quiet (the hypothesis of (12) holds for caller [2] from step 21 to step 40).
+   NOT PROVED: for stree programs - that a task with tk_ds set on the stack AWAITS the running task / the caller (the
+   layer structure of MachineC04/C07 is not ported to the stree invariant, so (7) and its converse are open there),
+   alternation (3)-(6) of the events (only (12) is proved on the trace); programs outside tree/stree/wn - Sync on an
+   existing handle (LOld / value() of a shared future), ReadVar/Probe branching, shared futures (DAGs), with-blocks
+   left open when a task ends, contexts whose resume()/pause() raise, NonAsyncContext (three runs computed in
+   C06_former_witnesses_alternate; nothing proved), non-pointwise services, runs in which the task-stack guard fired;
+   the converse of (7) (every awaiting task's contexts ARE resumed while t runs) is only proved for t itself (6) and for
+   the suspended callers (10) - for ancestors it follows from MachineC07's layer structure but is not stated here.
    These are covered by the correspondence harness + monitors. *)
 From Asynq Require Import Machine Seq proofs.MachineC08 proofs.MachineC01 proofs.MachineDFS proofs.MachineC04
      proofs.MachineC07 proofs.MachineC06T.
@@ -155,3 +200,151 @@ Example C06_hypotheses_are_met :
   ctx_events [1] 1 (tr_at 200%nat) = [R [1]; Z [1]; R [1]; Z [1]].
 Proof. exact c06_demo_runs. Qed.
 Print Assumptions C06_hypotheses_are_met.
+
+(* ------------------------------------------------------------------ tree programs with synchronous calls *)
+From Asynq Require Import proofs.MachineC01S proofs.MachineDFSS.
+
+(* F1 *)
+Theorem C06_contexts_at_every_flush_stree : forall P, pointwise P -> forall p, stree p -> forall n,
+  let h := fst (create [] (FTask p) (st0 P)) in
+  let s1 := snd (create [] (FTask p) (st0 P)) in
+  no_unwind P n (start h s1) -> c_mode (run P n (start h s1)) = MAfterExec ->
+  let c := run P n (start h s1) in
+  exists r vs, c_frames c = FWait r :: vs /\ stk (tasks (c_st c)) vs /\
+    (forall t, In t (fvals vs) -> exists tk, get t (c_st c) = Some (mkFut None (KTask tk)) /\ tk_cact tk = true) /\
+    (forall u tk, get u (c_st c) = Some (mkFut None (KTask tk)) -> tk_cact tk = true \/ tk_ds tk = true ->
+       In u (tasks (c_st c)) /\ tk_cact tk = true /\ (In u (fvals vs) \/ tk_ds tk = true)).
+Proof. exact flush_stree. Qed.
+Print Assumptions C06_contexts_at_every_flush_stree.
+
+Theorem C06_contexts_at_nested_flush_stree : forall P, pointwise P -> forall p, stree p -> forall n r t k fr',
+  let h := fst (create [] (FTask p) (st0 P)) in
+  let s1 := snd (create [] (FTask p) (st0 P)) in
+  no_unwind P n (start h s1) -> c_mode (run P n (start h s1)) = MAfterExec ->
+  c_frames (run P n (start h s1)) = FWait r :: FValue t k :: fr' ->
+  let s := c_st (run P n (start h s1)) in
+  exists old i r' vs rest below,
+    fr' = FCont t old :: FExec i :: FWait r' :: vs /\ tasks s = t :: rest ++ below /\ length below = i /\
+    stk below vs /\
+    (exists tk, get t s = Some (mkFut None (KTask tk)) /\ tk_cact tk = true) /\
+    (forall u tk, get u s = Some (mkFut None (KTask tk)) -> tk_cact tk = true \/ tk_ds tk = true ->
+       (u = t \/ In u (rest ++ below)) /\ tk_cact tk = true /\ (u = t \/ In u (fvals vs) \/ tk_ds tk = true)).
+Proof. exact nested_flush_stree. Qed.
+Print Assumptions C06_contexts_at_nested_flush_stree.
+
+(* F3 *)
+Theorem C06_contexts_paused_at_outer_flush_stree : forall P, pointwise P -> forall p, stree p -> forall n,
+  let h := fst (create [] (FTask p) (st0 P)) in
+  let s1 := snd (create [] (FTask p) (st0 P)) in
+  no_unwind P n (start h s1) -> c_mode (run P n (start h s1)) = MAfterExec ->
+  fvals (c_frames (run P n (start h s1))) = [] ->
+  tasks (c_st (run P n (start h s1))) = [] /\
+  forall u tk, get u (c_st (run P n (start h s1))) = Some (mkFut None (KTask tk)) ->
+    tk_cact tk = false /\ tk_ds tk = false.
+Proof. exact outer_flush_stree. Qed.
+Print Assumptions C06_contexts_paused_at_outer_flush_stree.
+
+Theorem C06_contexts_paused_at_every_flush_tree_rederived : forall P p n, pointwise P -> tree p ->
+  let h := fst (create [] (FTask p) (st0 P)) in
+  let s1 := snd (create [] (FTask p) (st0 P)) in
+  no_unwind P n (start h s1) -> c_mode (run P n (start h s1)) = MAfterExec ->
+  forall u tk, get u (c_st (run P n (start h s1))) = Some (mkFut None (KTask tk)) ->
+    tk_cact tk = false /\ tk_ds tk = false.
+Proof. exact contexts_paused_at_flush_tree_again. Qed.
+Print Assumptions C06_contexts_paused_at_every_flush_tree_rederived.
+
+(* F2 *)
+Theorem C06_contexts_active_while_own_code_runs_stree : forall P, pointwise P -> forall p, stree p -> forall n t q,
+  let h := fst (create [] (FTask p) (st0 P)) in
+  let s1 := snd (create [] (FTask p) (st0 P)) in
+  no_unwind P n (start h s1) -> c_mode (run P n (start h s1)) = MRun t q ->
+  let c := run P n (start h s1) in
+  (exists rest, tasks (c_st c) = t :: rest) /\
+  (forall x, x = t \/ In x (fvals (c_frames c)) ->
+     exists tk, get x (c_st c) = Some (mkFut None (KTask tk)) /\ tk_cact tk = true) /\
+  (forall u tk, get u (c_st c) = Some (mkFut None (KTask tk)) -> tk_cact tk = true ->
+     In u (tasks (c_st c)) /\ (u = t \/ In u (fvals (c_frames c)) \/ tk_ds tk = true)).
+Proof. exact running_stree. Qed.
+Print Assumptions C06_contexts_active_while_own_code_runs_stree.
+
+Theorem C06_callers_stay_resumed_inside_value : forall P, pointwise P -> forall p, stree p -> forall n t,
+  let h := fst (create [] (FTask p) (st0 P)) in
+  let s1 := snd (create [] (FTask p) (st0 P)) in
+  no_unwind P n (start h s1) -> is_final (c_mode (run P n (start h s1))) = false ->
+  In t (fvals (c_frames (run P n (start h s1)))) ->
+  exists tk, get t (c_st (run P n (start h s1))) = Some (mkFut None (KTask tk)) /\ tk_cact tk = true.
+Proof. exact callers_stay_resumed. Qed.
+Print Assumptions C06_callers_stay_resumed_inside_value.
+
+Theorem C06_contexts_untouched_inside_value : forall P p n m t, pointwise P -> stree p ->
+  let h := fst (create [] (FTask p) (st0 P)) in
+  let s1 := snd (create [] (FTask p) (st0 P)) in
+  no_unwind P (n + m) (start h s1) ->
+  (forall k, (n <= k < n + m)%nat -> In t (fvals (c_frames (run P k (start h s1))))) ->
+  cevt t (c_st (run P (n + m) (start h s1))) = cevt t (c_st (run P n (start h s1))).
+Proof. exact contexts_untouched_inside_value. Qed.
+Print Assumptions C06_contexts_untouched_inside_value.
+
+Theorem C06_all_paused_at_end_stree : forall P, pointwise P -> forall p, stree p -> forall n o,
+  let h := fst (create [] (FTask p) (st0 P)) in
+  let s1 := snd (create [] (FTask p) (st0 P)) in
+  no_unwind P n (start h s1) -> c_mode (run P n (start h s1)) = MDone o ->
+  tasks (c_st (run P n (start h s1))) = [] /\
+  forall u tk, get u (c_st (run P n (start h s1))) = Some (mkFut None (KTask tk)) ->
+    tk_cact tk = false /\ tk_ds tk = false.
+Proof. exact end_stree. Qed.
+Print Assumptions C06_all_paused_at_end_stree.
+
+(* the naive generalisation of (1) - even with the callers inside value() excepted - is false *)
+Theorem C06_paused_at_every_flush_stree_is_false :
+  ~ (forall P, pointwise P -> forall p, stree p -> forall n,
+     let h := fst (create [] (FTask p) (st0 P)) in
+     let s1 := snd (create [] (FTask p) (st0 P)) in
+     no_unwind P n (start h s1) -> c_mode (run P n (start h s1)) = MAfterExec ->
+     forall u tk, get u (c_st (run P n (start h s1))) = Some (mkFut None (KTask tk)) ->
+       ~ In u (fvals (c_frames (run P n (start h s1)))) -> tk_cact tk = false /\ tk_ds tk = false).
+Proof. exact contexts_paused_at_every_flush_stree_is_false. Qed.
+Print Assumptions C06_paused_at_every_flush_stree_is_false.
+
+(* non-vacuity: root [0] (ctx 0) awaits sibling [1] (ctx 2, blocks on a batch item) and caller [2] (ctx 1), which calls
+   callee [4] synchronously; [4] blocks on an item of the same batch; the loop nested below [2] ends its pass at step 31
+   and flushes: [2] is inside value() with ctx 1 resumed, [0] is grey with ctx 0 resumed, [1] is paused *)
+Example C06_stree_hypotheses_are_met :
+  let P := c06s_P in
+  let h := fst (create [] (FTask c06s_demo) (st0 P)) in
+  let s1 := snd (create [] (FTask c06s_demo) (st0 P)) in
+  let c k := run P k (start h s1) in
+  no_unwind_b P 100 (start h s1) = true /\
+  c_mode (c 100%nat) = MDone (Ok (VTuple [VInt 5; VInt 7])) /\ evals c06s_demo = Ok (VTuple [VInt 5; VInt 7]) /\
+  c_mode (c 31%nat) = MAfterExec /\ fvals (c_frames (c 31%nat)) = [[2%Z]] /\ tasks (c_st (c 31%nat)) = [[2%Z]; [0%Z]] /\
+  uflags (c_st (c 31%nat)) = [([0%Z], (true, true)); ([1%Z], (false, false)); ([2%Z], (true, false)); ([4%Z], (false, false))] /\
+  filter is_rp (rev (trace (c_st (c 32%nat)))) =
+    [EvResume [0%Z] 0; EvResume [1%Z] 2; EvPause [1%Z] 2; EvResume [2%Z] 1; EvBefore 0 0; EvAfter 0 0] /\
+  rev (trace (c_st (c 100%nat))) =
+    [EvStep [0%Z] 0 (Ok VNone); EvResume [0%Z] 0;
+     EvStep [1%Z] 0 (Ok VNone); EvResume [1%Z] 2; EvPause [1%Z] 2;
+     EvStep [2%Z] 0 (Ok VNone); EvResume [2%Z] 1;
+     EvStep [4%Z] 0 (Ok VNone);
+     EvBefore 0 0; EvFlush 0 0 [[3%Z]; [5%Z]]; EvItemDone [3%Z] (Ok (VInt 5)); EvItemDone [5%Z] (Ok (VInt 7)); EvAfter 0 0;
+     EvStep [4%Z] 1 (Ok (VInt 7)); EvDone [4%Z] (Ok (VInt 7)); EvGot [2%Z] (Ok (VInt 7));
+     EvPause [2%Z] 1; EvDone [2%Z] (Ok (VInt 7));
+     EvPause [0%Z] 0; EvResume [0%Z] 0; EvResume [1%Z] 2;
+     EvStep [1%Z] 1 (Ok (VInt 5)); EvPause [1%Z] 2; EvDone [1%Z] (Ok (VInt 5));
+     EvStep [0%Z] 1 (Ok (VTuple [VInt 5; VInt 7])); EvPause [0%Z] 0; EvDone [0%Z] (Ok (VTuple [VInt 5; VInt 7]))].
+Proof. exact c06s_demo_runs. Qed.
+Print Assumptions C06_stree_hypotheses_are_met.
+
+Example C06_stree_demo_is_stree_and_pointwise : stree c06s_demo /\ pointwise c06s_P.
+Proof. exact (conj c06s_demo_stree c06s_P_pointwise). Qed.
+Print Assumptions C06_stree_demo_is_stree_and_pointwise.
+
+Example C06_stree_caller_is_quiet :
+  let P := c06s_P in
+  let h := fst (create [] (FTask c06s_demo) (st0 P)) in
+  let s1 := snd (create [] (FTask c06s_demo) (st0 P)) in
+  let c k := run P k (start h s1) in
+  forallb (fun k => existsb (fid_eqb [2%Z]) (fvals (c_frames (c k)))) (seq 21 20) = true /\
+  cevt [2%Z] (c_st (c 21%nat)) = [EvResume [2%Z] 1] /\ cevt [2%Z] (c_st (c 41%nat)) = [EvResume [2%Z] 1] /\
+  cevt [2%Z] (c_st (c 42%nat)) = [EvPause [2%Z] 1; EvResume [2%Z] 1].
+Proof. exact c06s_demo_quiet. Qed.
+Print Assumptions C06_stree_caller_is_quiet.
